@@ -61,6 +61,7 @@ inductive ValRes where
   | ok (v : RVal) (rest : Bytes)
   | err
   | panic (site : String)
+  deriving DecidableEq
 
 /-- `buffer.read(n)` for `n > 0`; `io.EOF` (nothing left at all) is let through with
     `b = nil`, a negative `n` (null tag, or a length ≥ 2^63) leaves `b = nil`. -/
@@ -170,41 +171,6 @@ def readPlainFrame (o : ROpts) (code : Nat) (bs : Bytes) : FrameRes :=
       | .eof => .stop .eof []
       | .err => .stop .err []
 
-/-- `parser.readCompressedFrame` followed by `frame.decompress`. -/
-def readCompFrame (o : ROpts) (decomp : Bytes → Nat → Option Bytes) (code : Nat) (bs : Bytes) : FrameRes :=
-  match frameLen code bs with
-  | .error e => .stop e []
-  | .ok (n, r) =>
-    match r with
-    | [] => .stop .eof []                       -- format byte: io.EOF
-    | format :: r1 =>
-      match readUvarint r1 with
-      | .error .eof => .stop .eof []
-      | .error _ => .stop .err []
-      | .ok (usize, r2) =>
-        let size := asInt usize
-        if size > Int.ofNat o.maxSize then .stop .err []
-        else
-          let n' := wrapInt (n - (Int.ofNat (readCompExtra usize)))
-          -- io.EOF from the peeker is let through with an empty compressed buffer
-          let got : Option (Bytes × Bytes) :=
-            match peekRead o.maxSize n' r2 with
-            | .ok b rest => some (b, rest)
-            | .eof => some ([], r2)
-            | .err => none
-          match got with
-          | none => .stop .err []
-          | some (z, rest) =>
-            if size < 0 then .stop (.panic "newbuffer-negative-length") [z.length]
-            else if format.toNat ≠ compressionFormatLZ4 then .stop .err [z.length, size.toNat]
-            else match decomp z size.toNat with
-              | none => .stop .err [z.length, size.toNat]
-              | some ub => if ub.length ≠ size.toNat then .stop .err [z.length, size.toNat]
-                           else .ok ub rest [z.length, size.toNat]
-
-def readFrame (o : ROpts) (decomp : Bytes → Nat → Option Bytes) (code : Nat) (bs : Bytes) : FrameRes :=
-  if code &&& compressedMask ≠ 0 then readCompFrame o decomp code bs else readPlainFrame o code bs
-
 theorem peekRead_le {limit : Nat} {n : Int} {bs b rest : Bytes} (h : peekRead limit n bs = .ok b rest) :
     rest.length ≤ bs.length := by
   unfold peekRead at h
@@ -216,6 +182,84 @@ theorem peekRead_le {limit : Nat} {n : Int} {bs b rest : Bytes} (h : peekRead li
       · cases h
       · split at h <;> cases h
 
+/-- what `parser.readCompressedFrame` returns (before decompression) -/
+inductive CompRes where
+  | ok (format : UInt8) (z : Bytes) (size : Int) (rest : Bytes)
+  | stop (o : Outcome)
+
+/-- `parser.readCompressedFrame`: length, format byte, declared uncompressed size, payload. -/
+def readCompHeader (o : ROpts) (code : Nat) (bs : Bytes) : CompRes :=
+  match frameLen code bs with
+  | .error e => .stop e
+  | .ok (n, r) =>
+    match r with
+    | [] => .stop .eof                       -- format byte: io.EOF
+    | format :: r1 =>
+      match readUvarint r1 with
+      | .error .eof => .stop .eof
+      | .error _ => .stop .err
+      | .ok (usize, r2) =>
+        let size := asInt usize
+        if size > Int.ofNat o.maxSize then .stop .err
+        else
+          -- io.EOF from the peeker is let through with an empty compressed buffer
+          match peekRead o.maxSize (wrapInt (n - (Int.ofNat (readCompExtra usize)))) r2 with
+          | .ok b rest => .ok format b size rest
+          | .eof => .ok format [] size r2
+          | .err => .stop .err
+
+/-- `parser.readCompressedFrame` followed by `frame.decompress`. -/
+def readCompFrame (o : ROpts) (decomp : Bytes → Nat → Option Bytes) (code : Nat) (bs : Bytes) : FrameRes :=
+  match readCompHeader o code bs with
+  | .stop e => .stop e []
+  | .ok format z size rest =>
+    if size < 0 then .stop (.panic "newbuffer-negative-length") [z.length]
+    else if format.toNat ≠ compressionFormatLZ4 then .stop .err [z.length, size.toNat]
+    else match decomp z size.toNat with
+      | none => .stop .err [z.length, size.toNat]
+      | some ub => if ub.length ≠ size.toNat then .stop .err [z.length, size.toNat]
+                   else .ok ub rest [z.length, size.toNat]
+
+def readFrame (o : ROpts) (decomp : Bytes → Nat → Option Bytes) (code : Nat) (bs : Bytes) : FrameRes :=
+  if code &&& compressedMask ≠ 0 then readCompFrame o decomp code bs else readPlainFrame o code bs
+
+theorem readCompHeader_progress {o : ROpts} {code : Nat} {bs z rest : Bytes} {f : UInt8} {size : Int}
+    (h : readCompHeader o code bs = .ok f z size rest) : rest.length < bs.length := by
+  unfold readCompHeader at h
+  split at h
+  · cases h
+  · rename_i n r hl
+    have := frameLen_progress hl
+    split at h
+    · cases h
+    · rename_i format r1
+      split at h
+      · cases h
+      · cases h
+      · rename_i usize r2 hu
+        have := readUvarint_progress r1 usize r2 hu
+        simp only at h
+        split at h
+        · cases h
+        · split at h
+          · rename_i hp; cases h; have := peekRead_le hp; simp at *; omega
+          · cases h; simp at *; omega
+          · cases h
+
+theorem readPlainFrame_progress {o : ROpts} {code : Nat} {bs p rest : Bytes} {al : List Nat}
+    (h : readPlainFrame o code bs = .ok p rest al) : rest.length < bs.length := by
+  unfold readPlainFrame at h
+  split at h
+  · cases h
+  · rename_i n r hl
+    have := frameLen_progress hl
+    split at h
+    · cases h
+    · split at h
+      · rename_i hp; cases h; have := peekRead_le hp; omega
+      · cases h
+      · cases h
+
 theorem readFrame_progress {o : ROpts} {decomp : Bytes → Nat → Option Bytes} {code : Nat}
     {bs p rest : Bytes} {al : List Nat} (h : readFrame o decomp code bs = .ok p rest al) :
     rest.length < bs.length := by
@@ -224,36 +268,17 @@ theorem readFrame_progress {o : ROpts} {decomp : Bytes → Nat → Option Bytes}
   · unfold readCompFrame at h
     split at h
     · cases h
-    · rename_i n r hl
-      have := frameLen_progress hl
+    · rename_i hh
+      have := readCompHeader_progress hh
       split at h
       · cases h
-      · rename_i format r1
-        split at h
+      · split at h
         · cases h
-        · cases h
-        · rename_i usize r2 hu
-          have := readUvarint_progress r1 usize r2 hu
-          simp only at h
-          split at h
+        · split at h
           · cases h
           · split at h
             · cases h
-            · rename_i z rest' hg
-              have hr : rest'.length ≤ r2.length := by
-                split at hg
-                · rename_i hp; cases hg; exact peekRead_le hp
-                · cases hg; exact Nat.le_refl _
-                · cases hg
-              split at h
-              · cases h
-              · split at h
-                · cases h
-                · split at h
-                  · cases h
-                  · split at h
-                    · cases h
-                    · cases h; simp at *; omega
+            · cases h; exact this
   · unfold readPlainFrame at h
     split at h
     · cases h
@@ -349,6 +374,34 @@ def readStream (o : ROpts) (decomp : Bytes → Nat → Option Bytes) (ctx : Ctx)
         have := step_progress h; simp; omega
       let r := readStream o decomp ctx' rest
       ⟨vs ++ r.vals, al ++ r.allocs, r.out⟩
+termination_by bs.length
+
+/-- The LZ4 blocks a stream asks to decompress, in order, found by walking the frames without
+    decoding them (used by the driver to ask the harness for the oracle's answers). -/
+def compRequests (o : ROpts) (bs : Bytes) : List (Bytes × Int) :=
+  match bs with
+  | [] => []
+  | code :: tl =>
+    let c := code.toNat
+    if c = eos then
+      have : tl.length < (code :: tl).length := by simp
+      compRequests o tl
+    else if c &&& versionMask ≠ 0 then []
+    else if frameTypeOf c > controlFrame then []
+    else if c &&& compressedMask ≠ 0 then
+      match h : readCompHeader o c tl with
+      | .stop _ => []
+      | .ok _ z size rest =>
+        have : rest.length < (code :: tl).length := by
+          have := readCompHeader_progress h; simp; omega
+        (z, size) :: compRequests o rest
+    else
+      match h : readPlainFrame o c tl with
+      | .stop _ _ => []
+      | .ok p rest al =>
+        have : rest.length < (code :: tl).length := by
+          have := readPlainFrame_progress h; simp; omega
+        compRequests o rest
 termination_by bs.length
 
 /-- `Reader.Read` until it returns nil or an error, from the start of a stream. -/
